@@ -807,14 +807,6 @@ func c04(c *Ctx) (*report.Result, error) {
 	}
 	res.Explanation = "SSA of proxy.streamRouting (identity of the latch handed to both Run calls through the goroutine closures' captured cell, AfterFunc wiring), of every worker function of sender and receiver (deferred Shutdown covering all exits), a construction-site inventory of proxyStreamSender / proxyStreamReceiver and a who-may-write inventory of the per-incarnation fields (id ring, channels, per-target ack map, lastSentMin). These are the mechanisms that keep a broken stream from leaving acknowledged-but-unconfirmed state behind; the enumeration of break points x reconnection orders itself is a fault-sequence statement and is not decided."
 	res.Assumptions = []string{"the source cluster resends from its acknowledged level after a reconnect (Temporal behaviour)"}
-	res.RuleDoc["O4.13"] = "worker bookkeeping of the stream handlers is consistent: for every local sync.WaitGroup of package proxy's stream files the Add count equals the number of goroutines started with it, each calls Done from an entry-block defer, none is called synchronously, and no return after the last `go` avoids Wait (proxyStreamSender.Run, which does not wait by design, is the reviewed exception) - otherwise the handler is parked for ever or cleans up under running workers"
-	checkWaitGroups(c, res, "O4.13", []string{"proxy/proxy_streams.go", "proxy/admin_stream_transfer.go", "proxy/intra_proxy_router.go"}, 4)
-	res.RuleDoc["O4.14"] = "a routed receiver leaves no stream behind: the context on which proxyStreamReceiver.Run opens its stream is cancelled by a defer registered before any return"
-	for _, a := range []anchor{{"proxy", "*proxyStreamReceiver", "Run"}} {
-		if g := resolve(c, res, "O4.14", a); g != nil {
-			checkDeferredCancel(c, res, "O4.14", g)
-		}
-	}
 	res.RuleDoc["O4.10"] = "no swallowed error in the files the mechanism lives in: no function returns a nil error on a path on which an error obtained from a call is known to be non-nil (io.EOF from a stream Recv, the normal end of a receive loop, is the one accepted idiom)"
 	checkNoSwallowedErrors(c, res, "O4.10", []string{"proxy/proxy_streams.go", "proxy/admin_stream_transfer.go", "proxy/shard_manager.go"})
 	res.RuleDoc["O4.11"] = "relay loops pass every message on: in every loop that takes messages from a stream or channel and forwards them, no path from the take to the next take avoids every stream Send / channel send / Deliver*ToShardOwner (a forwarding loop that runs zero times, the wrong-kind edges of a type assertion and a return that ends the stream are not bypasses; the ack aggregator sendAck is the reviewed exception)"
